@@ -271,8 +271,21 @@ def sink_case(mon: Monitor, rng: random.Random, workdir: str) -> None:
         n = rng.randint(1, 6)
         ids = rng.sample(range(1, 60), n)
         datas = [os.urandom(rng.choice([0, 1, 10, m - 1, m, 3 * m, 5000])) for _ in ids]
-        cfg = {"parts": list(zip(ids, map(len, datas))), "relocated": relocate, "existing_destination": existing}
+        # an earlier round on the same destination that left its part files behind (it crashed before finalise, or finalised with keep_parts=True): same part numbers,
+        # same sizes, other bytes - and, within a round, a part written a second time with other bytes of the same length (a retried task): the last write counts
+        earlier = rng.choice([None, None, None, "crashed", "kept-parts"])
+        rewrite = rng.random() < 0.2
+        cfg = {"parts": list(zip(ids, map(len, datas))), "relocated": relocate, "existing_destination": existing, "earlier_round": earlier, "part_rewritten": rewrite}
+        if earlier:
+            s0 = MPUFileSink(dst, parts_base=base)
+            keep = rng.sample(range(n), rng.randint(1, n))
+            old_parts, e0 = call(lambda: [s0(ids[k], bytes(255 - b for b in datas[k])) for k in keep])
+            if e0 is None and earlier == "kept-parts":
+                call(s0.finalise, old_parts, keep_parts=True)
         with FsAudit() as audit:
+            if rewrite:
+                k = rng.randrange(n)
+                call(s, ids[k], bytes((b + 1) % 256 for b in datas[k]))
             parts, e = call(lambda: [s(i, b) for i, b in zip(ids, datas)])
             if e is not None:
                 return mon.fail("filesink", {**cfg, "exc": e}, key="filesink-write-raises")
@@ -297,8 +310,11 @@ def sink_case(mon: Monitor, rng: random.Random, workdir: str) -> None:
         outside = [ev for ev in audit.events if ev[0] != "open" and not any(str(a).startswith(d) for a in ev[1:])]
         ok = got == want and not os.path.exists(pdir) and not left and by_ok and not touched and not outside and str(res) == dst
         mon.check(ok, "filesink", lambda: {**cfg, "content_equal": got == want, "len": [len(got), len(want)], "parts_dir_left": os.path.exists(pdir), "files_left": left, "bystander_touched": touched, "events_outside": outside[:5]},
-                  key="filesink-contract", cls=("relocated" if relocate else "default") + ("|empty-part" if any(len(x) == 0 for x in datas) else "") + ("|existing-destination" if existing else ""), sig=hsig("fs", tuple(cfg["parts"]), tuple(cfg["order"]), relocate),
+                  key="filesink-contract", cls=("relocated" if relocate else "default") + ("|empty-part" if any(len(x) == 0 for x in datas) else "") + ("|existing-destination" if existing else ""), sig=hsig("fs", tuple(cfg["parts"]), tuple(cfg["order"]), relocate, earlier, rewrite),
                   sample=cfg)
+        if ok:
+            for dim in ([f"earlier-round:{earlier}"] if earlier else []) + (["part-rewritten"] if rewrite else []):
+                mon.ok("filesink.history", cls=dim)
     finally:
         shutil.rmtree(d, ignore_errors=True)
 
@@ -429,7 +445,7 @@ def run(mon: Monitor, tier: str, seed: int, shard: int, nshards: int) -> None:
         real_cluster(mon, rng, 2)
     elif shard == 0:
         real_cluster(mon, rng, 30)
-    floors = [("schedule", 1500 if q else 3000), ("filesink", 200), ("limits", 30), ("filesink|default|empty-part", 5), ("filesink|relocated", 20), ("filesink|default|existing-destination", 5), ("limits|MPUFileSink", 25)]
+    floors = [("schedule", 1500 if q else 3000), ("filesink", 200), ("limits", 30), ("filesink|default|empty-part", 5), ("filesink|relocated", 20), ("filesink|default|existing-destination", 5), ("filesink.history|earlier-round:crashed", 10), ("filesink.history|earlier-round:kept-parts", 10), ("filesink.history|part-rewritten", 10), ("limits|MPUFileSink", 25)]
     if q or nshards == 1:
         floors += [("schedule|local|n=2|dfs", 200), ("schedule|cluster-prepared|n=2|dfs", 200), ("schedule|cluster-unprepared|n=2|dfs", 200), ("schedule|local|n=3|dfs", 200), ("schedule|local-cold|n=2|dfs", 200), ("real-cluster", 2),
                    ("schedule|cluster-shared-prepared|n=2|dfs", 200), ("schedule|cluster-shared-unprepared|n=2|dfs", 200)]
